@@ -148,6 +148,28 @@ def property_checks(inp):
     return out
 
 
+def screens_follow_analytic(base):
+    """'applied to generated screens it follows the analytic structure function': the estimator averaged over 60 seeded
+    sub-harmonic screens (both axes) against structure_function_vk, outer scales larger than the 6.4 m screen; on the unchanged
+    tree the ratio stays within 0.88 .. 1.06 at every lag up to a quarter of the screen"""
+    from aotools.turbulence import phasescreen as ps_
+    out = []
+    N, delta, r0, l0, n = 64, 0.1, 0.15, 0.01, 60
+    with warnings.catch_warnings():
+        warnings.simplefilter("ignore")
+        for L0 in (25.0, 100.0):
+            acc = 0
+            for k in range(n):
+                scr = ps_.ft_sh_phase_screen(r0, N, delta, L0, l0, seed=base + k)
+                acc = acc + sc.calculate_structure_function(scr) + sc.calculate_structure_function(scr.T.copy())
+            sf = acc / (2 * n)
+            an = sc.structure_function_vk(numpy.arange(1, len(sf)) * delta, r0, L0)
+            ratio = sf[1:] / an
+            out.append(("estimator on generated screens follows the analytic structure function (L0 = %g m, 60 screens)" % L0,
+                        float(max(ratio.max() - 1.0, 1.0 - ratio.min())), 0.2))
+    return out
+
+
 def gen_input(rng):
     return {"R": rng.randint(6, 40), "C": rng.randint(8, 40), "step": rng.randint(1, 4), "a": rng.uniform(-3, 3), "s": rng.uniform(0.3, 4),
             "nfr": rng.randint(4, 64), "nc": rng.randint(1, 8), "lead": list(rng.choice([(), (2,), (2, 3)])), "kbin": rng.randint(0, 30),
@@ -168,6 +190,15 @@ def falsify(ctx, deep=False):
             worst[clause] = max(worst.get(clause, -1e300), err if math.isfinite(err) else 1e300)
             if not (err <= tol):
                 viols.append({"clause": clause, "error": err, "tolerance": tol, "input": inp})
+    base = 0 if not deep else rng.randint(0, 10 ** 6)
+    try:
+        res = screens_follow_analytic(base)
+    except Exception as ex:
+        res = [("raised %s: %s" % (type(ex).__name__, str(ex)[:80]), float("inf"), 0.0)]
+    for clause, err, tol in res:
+        worst[clause] = max(worst.get(clause, -1e300), err if math.isfinite(err) else 1e300)
+        if not (err <= tol):
+            viols.append({"clause": clause, "error": err, "tolerance": tol, "input": {"screens_base_seed": base}})
     seen, keep = set(), []
     for v in viols:
         if v["clause"] not in seen:
@@ -180,7 +211,7 @@ def replay(payload):
     if not v:
         print("replay file names a proof/correspondence failure, no input:", payload.get("proof", {}).get("failed_at"))
         return False
-    bad = [(c, e, t) for c, e, t in property_checks(v["input"]) if not (e <= t)]
+    bad = [(c, e, t) for c, e, t in (screens_follow_analytic(v["input"]["screens_base_seed"]) if "screens_base_seed" in v["input"] else property_checks(v["input"])) if not (e <= t)]
     for c, e, t in bad:
         print("  clause %r: error %g > %g" % (c, e, t))
     return not bad
